@@ -201,6 +201,17 @@ func VerifH_C09_foreach_no_waiting_window() {
 			verifrt.Assert(!(st == step.RunningStepStateWaitingForInput && cs == stages[a]), "a loop step that was given its "+stages[a]+" input no longer shows as waiting for input in that stage")
 		}
 	}
+	// ... and not later either: the step's goroutine (which may have been between reading "is the input
+	// there?" and publishing its state when the input arrived) goes on as far as it can - the item runs
+	// block at the gate - and the detector reads the state again
+	verifrt.Settle()
+	{
+		rs := r.(*runningStep)
+		rs.lock.Lock()
+		st, cs := rs.currentState, string(rs.currentStage)
+		rs.lock.Unlock()
+		verifrt.Assert(!(st == step.RunningStepStateWaitingForInput && cs == stages[upto]), "a loop step that was given its "+stages[upto]+" input does not show as waiting for input in that stage once it has picked the input up")
+	}
 	close(sub.gate)
 	verifEpilogue(h, r, sub)
 }
